@@ -221,6 +221,9 @@ def _is_int_expr(node):
         return _is_int_expr(node[1])
     if k == "bin":
         return _is_int_expr(node[2]) and _is_int_expr(node[3])
+    if k == "fn":
+        # the generic ABS keeps the type of its argument: 7/abs(2) is an integer division like 7/2
+        return node[1].lower() == "abs" and _is_int_expr(node[2])
     return False
 
 
